@@ -74,7 +74,7 @@ def binder(E, it, st):
             i = z3.Int(E.fresh_name("qi"))
             g = z3.And([0 <= i] + [i < Q.Length(s.t) for s in seqs])
             return ("sym", [i], g, STuple([SVal(Q.At(s.t, i), s.ty.elem) for s in seqs]), i, None)
-        if it.kind in ("chain", "seq"):
+        if it.kind in ("chain", "seq", "chain*"):
             it = seq_of(E, it, st)
         else:
             raise OutsideSubset(f"quantifier over {it.kind}")
@@ -288,16 +288,17 @@ def _list_comp(E, gens, elt, st):
         ety = e.ty
         rty = TList(ety)
         if not conds:
-            R = E.fresh(rty, "map")
+            # [e(x) for x in xs]: defined outright as (len xs, lambda j. e(xs[j])) in canonical form, so that two maps over
+            # equal sources are equal by array extensionality (beta reduction, no quantifier instantiation needed)
             j = z3.Int(E.fresh_name("mj"))
-            # element at position j of R is e evaluated at the j-th element (index term idx is i - lo)
-            e_at = z3.substitute(e.t, (i, i))
             lo_shift = z3.simplify(i - idx)   # i = idx + lo
-            ej = z3.substitute(e.t, (i, j if (z3.is_int_value(lo_shift) and lo_shift.as_long() == 0) else j + lo_shift))
-            facts = [Q.Length(R.t) == (n if (z3.is_app(n) and n.decl().name() == "len") else z3.If(n < 0, 0, n)),
-                     z3.ForAll([j], z3.Implies(z3.And(0 <= j, j < n), Q.At(R.t, j) == ej), patterns=[Q.At(R.t, j)])]
-            E.assumptions.add("schematic rule MAP: [e(x) for x in xs] is the list R with len(R)=len(xs) and R[j]=e(xs[j])")
-            return R, facts
+            zero = z3.is_int_value(lo_shift) and lo_shift.as_long() == 0
+            ej = z3.substitute(e.t, (i, j if zero else j + lo_shift))
+            nn = n if (z3.is_app(n) and n.decl().name() == "len") else z3.If(n < 0, 0, n)
+            dt = Q.list_sort(E.U.sort(ety))
+            R = SVal(dt.mkl(nn, z3.Lambda([j], z3.If(z3.And(0 <= j, j < nn), ej, Q.dflt(E.U.sort(ety))))), rty)
+            E.assumptions.add("schematic rule MAP: [e(x) for x in xs] is the list (len xs, lambda j. e(xs[j]))")
+            return R, []
         c = z3.And(conds)
         lo_shift = z3.simplify(i - idx)
         R = E.fresh(rty, "filtermap")
